@@ -665,6 +665,18 @@ package table
 // real AS number is left as received
 //@   at-return requires aggAttr != nil && agg4Attr != nil && old(aggAttr.Value.AS) != bgp.AS_TRANS ==> aggAttr.Value.AS == old(aggAttr.Value.AS)
 
+// from C14 / C08 (RFC 6793 6): what a 4-octet speaker sent in AS4_PATH / AS4_AGGREGATOR is dropped, every other
+// attribute stays, in order; the slice the message had is not written to (it may be shared with the decoder's)
+//@ props C14 C08
+//@ func DiscardAs4Attrs
+//@   requires msg != nil
+//@   claims frame step inv-init inv-keep at-return bounds nil
+//@   modifies msg.PathAttributes
+//@   loop 0 invariant forall k int :: 0 <= k && k < len(kept) ==> typeOf(kept[k]) != (*bgp.PathAttributeAs4Path) && typeOf(kept[k]) != (*bgp.PathAttributeAs4Aggregator)
+//@   loop 0 step typeOf(attr) != (*bgp.PathAttributeAs4Path) && typeOf(attr) != (*bgp.PathAttributeAs4Aggregator) ==> len(kept) == header(len(kept)) + 1 && kept[len(kept)-1] == attr
+//@   loop 0 step typeOf(attr) == (*bgp.PathAttributeAs4Path) || typeOf(attr) == (*bgp.PathAttributeAs4Aggregator) ==> len(kept) == header(len(kept))
+//@   at-return requires forall k int :: 0 <= k && k < len(msg.PathAttributes) ==> typeOf(msg.PathAttributes[k]) != (*bgp.PathAttributeAs4Path) && typeOf(msg.PathAttributes[k]) != (*bgp.PathAttributeAs4Aggregator)
+
 // =============================================================================================
 // C14 — the 2-octet/4-octet AS transition: reconstruction from AS_PATH + AS4_PATH
 // =============================================================================================
